@@ -110,6 +110,14 @@ class Ctx:
         """post-state view of a value (element of a returned list, ...)"""
         return unwrap(self._eng, self.post._objs, v)
 
+    def blen(self, v):
+        """length of a bytes value as a z3 Int"""
+        return self._eng.bytes_len(v)
+
+    def u8len(self, v):
+        """utf-8 length of a (symbolic) str value"""
+        return v.extra['u8'] if v.py is None else z3.IntVal(len(v.py.encode('utf-8')))
+
     def is_none(self, v):
         return isinstance(v, V) and v.k == 'none'
 
@@ -238,7 +246,7 @@ class Loop:
             if kind is None:
                 if cur is None:
                     continue
-                if cur.k in ('int', 'real', 'bool', 'any'):
+                if cur.k in ('int', 'real', 'bool', 'any', 'bytes'):
                     kind = cur.k
                 else:
                     if n == idx_name:
@@ -250,6 +258,8 @@ class Loop:
                 st.env[n] = kind(eng, '%s@loop%d!%d' % (n, ordinal, next(eng.counter)))
             else:
                 st.env[n] = eng.sym_of_kind(kind, '%s@loop%d!%d' % (n, ordinal, next(eng.counter)))
+            if st.env[n].extra and 'facts' in st.env[n].extra:
+                st.pc.extend(st.env[n].extra['facts'])
         for (objname, field) in self.havoc_fields:
             ref = st.env.get(objname)
             if objname == 'main':
